@@ -1530,7 +1530,7 @@ func reasmFamily(ctx *Ctx) error {
 		idx++
 	}
 
-	if ctx.Prop == "C02" || ctx.Prop == "C19" {
+	if ctx.Prop == "C01" || ctx.Prop == "C02" || ctx.Prop == "C19" {
 		// directed: an older event with the higher number expires behind a younger, lower-numbered head
 		for _, max := range []int{2, 5, 8} {
 			for _, toMs := range []int{40, 60} {
